@@ -94,6 +94,10 @@ func c08Setup(g *rng, nLoggers int) *c08env {
 	slog.SetFlags((slog.LstdFlags &^ slog.Lcaller) | slog.LnoInterrupt)
 	slog.SetLevelOutputWidth(3)
 	slog.SetMessageMinimalWidth(36)
+	// custom severities registered by title only (no short tags, no colors of their own): their tags are derived
+	for k := 0; k < 4; k++ {
+		_ = slog.RegisterLevel(slog.Level(71+k), fmt.Sprintf("AUDIT%c", 'A'+k), slog.RegWithTreatedAsLevel(slog.InfoLevel))
+	}
 	e := &c08env{err: errors.New("shared error value")}
 	// the shared group: members deliberately not in key order, with a duplicate key
 	e.sharedG = gattr{key: "grp", isGroup: true, val: gval{kind: "group", items: []gattr{
@@ -226,6 +230,8 @@ func (e *c08env) issue(c c08call) (panicked string) {
 		e.std[c.logger].Print(c.msg) // the std log bridge: a record without attributes of its own
 	case 8:
 		e.sl[c.logger].Info(c.msg) // log/slog on the adapter, no attributes
+	case 10:
+		l.Logit(context.Background(), slog.Level(71+len(c.id)%4), c.msg, args...) // registered by title only
 	case 9:
 		// a Context verb: loggers with registered context keys print what this call's context holds
 		ctx := context.WithValue(context.WithValue(context.Background(), "rid", c.id), "trace", len(c.id)) //nolint
@@ -257,7 +263,7 @@ func c08Stress(seed uint64, tier string, o c08out) {
 		progs := make([][]c08call, G)
 		for gi := range progs {
 			for i := 0; i < N; i++ {
-				c := c08call{logger: g.intn(nLoggers), verb: []int{0, 1, 2, 3, 4, 6, 6, 7, 8, 9, 9}[g.intn(11)], msg: c08Msgs[g.intn(len(c08Msgs))], shape: g.intn(9), id: fmt.Sprintf("g%d-c%d", gi, i)}
+				c := c08call{logger: g.intn(nLoggers), verb: []int{0, 1, 2, 3, 4, 6, 6, 7, 8, 9, 9, 10, 10}[g.intn(13)], msg: c08Msgs[g.intn(len(c08Msgs))], shape: g.intn(9), id: fmt.Sprintf("g%d-c%d", gi, i)}
 				if c.msg != "" || c.verb != 4 {
 					c.msg = fmt.Sprintf("call %s. %s", c.id, c.msg)
 				}
